@@ -95,6 +95,11 @@ CLAIMED = {
         "Static: for every bar shape (rest, 1-2 notes, tempo-changing container; 1-4 entries) play_Bar emits per sounding note one play_event(pitch+12, the note's channel and velocity), then sleep(240/(bpm*value)) with the tempo of that entry, then one stop_event with the same pitch and channel; rests only sleep; the final tempo is returned and threaded through play_Track; the observer's low-level stream equals the hook stream event by event; attach de-duplicates, detach removes, every listener is notified; control changes outside 0..128 (either argument, either side) return False and emit nothing, inside they emit once; every message constant is distinct and reaches the handler named for it with the keys the sequencer sends; play_Tracks announces one instrument per track on its channel before playing bars together, play_Composition defaults to channels 1..n; no loop mutates the list it iterates.",
         "Not decided: the parallel scheduler of play_Bars (re-triggering with unequal rhythms, total sleep of parallel bars). Trusted: CPython ast, abstract evaluator (variants/c18.py), event model in rules/c18.py.",
         "DESIGN.md section 2, C18"),
+    "C19": (
+        "abstract interpretation of the exporters: fold / count-down summaries of LilyPond pitch rendering; evaluation of the LilyPond container/bar/track/composition renderers on shapes with an independent subset reader decoding the produced text; evaluation of the MusicXML builders over an abstract DOM with move-on-append semantics and decoding of the resulting tree",
+        "Static: LilyPond note names are lower-cased letter + is/es per accidental in order + octave-3 primes or 3-octave commas for a symbolic octave; rests, single notes and chords with base values incl. longa/breve, dots and tuplet groups decode to the music they were built from; key (all 30 keys) and time are shown on request, from_Track shows them exactly on change, the header carries title/author/subtitle. MusicXML: no element is appended twice; per note step/alter/octave, chord marks on every chord note but the first, dot count, tuplet ratio and duration/divisions == exact length in quarter notes; meter, fifths, mode; matching unique part ids, measure numbers 1..n; titles, names and instrument names enter as text nodes unchanged; empty bars export.",
+        "Not decided: serialisation/escaping (delegated to xml.dom.minidom), longa/breve in MusicXML, shapes beyond those enumerated (covered by the per-entry argument). Trusted: CPython ast, abstract evaluator + engine/domdom.py (variants/c19.py), C09.",
+        "DESIGN.md section 2, C19"),
     "C06": (
         "offset-domain abstract interpretation of every chord builder (interval constructors summarised by their C02 post-condition) against a meaning-keyed chord-theory oracle; table agreement; abstract evaluation of the shorthand parser on root shapes x keys, aliases, slash, polychord, NC, list and malformed classes",
         "Static: each of the shorthand builders (incl. the lambda) yields, for 7 root letters x arbitrary accidentals, exactly the (letter, semitone) list its meaning prescribes; chord_shorthand and chord_shorthand_meaning have equal key sets; from_shorthand maps every key, every min/mi/-/maj/ma alias spelling, slash basses, polychords, NC and list input to the right builder result and rejects unknown suffixes / bad roots / bad basses with the documented errors.",
